@@ -182,6 +182,13 @@ def step (w : World) (ws : List String) : Option (World × String) :=
       match openDb s.db s.keepOrder s.sortVals with
       | .ok s' => ({ sess := some s' }, "ok")
       | .error e => (w, encErr e)))
+  | ["reopen", keep, sort] => do
+      -- `FeatureDB(dbfn, keep_order=…, sort_attribute_values=…)` on the same database
+      let keep ← parseBool keep; let sort ← parseBool sort
+      pure (withSess w (fun s =>
+        match openDb s.db keep sort with
+        | .ok s' => ({ sess := some s' }, "ok")
+        | .error e => (w, encErr e)))
   | ["get", id] => do
       let id ← Str.decode? id
       pure (withSess w (fun s => match getItem s id with
